@@ -5,6 +5,7 @@
 //! case file:   `<id>|a b c;d e f;...`      (one case per line, ops separated by `;`)
 //! output:      `<id>.<k>|x y z`            (one line per observation)
 #![allow(dead_code, dangerous_implicit_autorefs, unused_unsafe, static_mut_refs)]
+mod abortchild;
 mod layout;
 mod mech;
 mod ptrs;
@@ -38,6 +39,10 @@ fn parse_case(line: &str) -> Option<(String, Vec<Vec<u64>>)> {
 
 fn main() {
     let args: Vec<String> = std::env::args().collect();
+    if args.len() == 4 && args[1] == "abortchild" {
+        std::panic::set_hook(Box::new(|_| {}));
+        abortchild::main(args[2].parse().unwrap_or(99), args[3].parse().unwrap_or(1));
+    }
     if args.len() < 3 {
         eprintln!("usage: tvharness <stream> <casefile>");
         std::process::exit(2);
